@@ -99,6 +99,17 @@ def lookups(cx: Ctx, w: World, r: Obj, expect, op, inp):
                     problems.append(f"size('{key}') is not the length of dimension {l}")
             elif k != "raise":
                 problems.append(f"set['{key}'] for an absent dimension did not raise")
+    # identifiers spelled with the set's letters, and the empty string, are not dimensions of it
+    odd = ["", "".join(expect)] + ["".join(expect[i:i + 2]) for i in range(len(expect) - 1)]
+    for key in odd:
+        if key in expect or key in [l * 2 for l in expect]:
+            continue
+        k, v = call("__contains__", key)
+        if k != "ok" or bool(v):
+            problems.append(f"'{key}' in set -> {v if k == 'ok' else k}, but it is neither a name nor a letter of the set")
+        k, v = call("__getitem__", key)
+        if k != "raise":
+            problems.append(f"set['{key}'] did not raise")
     for i, l in enumerate(expect):
         k, v = call("__getitem__", i)
         if k != "ok" or not isinstance(v, Obj) or v.f.get("letter") != l:
@@ -136,6 +147,17 @@ def independent(cx, w, r, recv, arg, op, inp, la, lb, redo=None, exp=None):
         z = w.dim("z", n=3)
         run_guarded(lambda: w.it.call_method(r, "append", z, inplace=True))
         ch = w.changed(before)
+        if not ch:
+            # the operands' lookups still answer for their own dimensions (lookup tables shared with the result would not)
+            for o_ in [recv] + ([arg] if arg is not None and isinstance(arg, Obj) and "dim_list" in arg.f else []):
+                for d_ in o_.f["dim_list"]:
+                    kq, vq = run_guarded(lambda: w.it.call_method(o_, "__contains__", d_.f["letter"]))
+                    ki, vi = run_guarded(lambda: w.it.call_method(o_, "index", d_.f["letter"]))
+                    if kq != "ok" or not vq or ki != "ok":
+                        ch = [f"after the result was edited in place, an operand no longer finds its own dimension '{d_.f['letter']}'"]
+                kz, vz = run_guarded(lambda: w.it.call_method(o_, "__contains__", "z"))
+                if kz == "ok" and vz and "z" not in w.letters(o_):
+                    ch = ["after the result was edited in place, an operand claims to contain the dimension added to the result"]
         if ch:
             ok, msg = False, "editing the result in place changed an operand: " + "; ".join(ch)
         elif redo is not None:
@@ -191,6 +213,18 @@ def run_pair_ops(cx: Ctx, A, B):
         if kind == "ok" and exp != "RAISE":
             pass   # operands were probed by `independent`
         cx.ob("C14.operands-unchanged", not ch, op, inp, "; ".join(ch))
+    if len(A) == 1:       # a single Dimension as LEFT operand: d + set, d + d
+        w = World(cx.prog)
+        d = w.dim(A[0])
+        for other, desc in ((w.dimset(B), list(B)), (w.dim(B[0]), f"Dimension {B[0]}") if len(B) == 1 else (None, None)):
+            if other is None:
+                continue
+            kind, r = run_guarded(lambda: w.it.call_method(d, "__add__", other))
+            cx.rep.evaluations += 1
+            exp = BINOPS["__add__"](A, B)
+            inp = {"op": "__add__", "self": f"Dimension {A[0]}", "other": desc}
+            ok = (kind == "raise") if exp == "RAISE" else (kind == "ok" and isinstance(r, Obj) and w.letters(r) == exp)
+            cx.ob("C14.operator-result", ok, "__add__", inp, f"expected {'a refusal (the letters overlap)' if exp == 'RAISE' else exp}, got {kind} {w.letters(r) if kind == 'ok' and isinstance(r, Obj) else ''}")
     if len(B) == 1:       # a single Dimension as right operand is promoted to a set
         for op in ("__or__", "__and__", "__sub__", "__add__"):
             w = World(cx.prog)
